@@ -100,7 +100,7 @@ class Endpoint(object):
         self.server_closed = False
         self.write_error = None
         self.delivered = []           # pieces actually handed to the reader, in order
-        self.reader = LazyReader(self)
+        self.reader = LazyReader(self, limit=getattr(net, 'reader_limit', 2 ** 16))
         self.writer = FakeWriter(self)
         self._pump_scheduled = False
         self.data = {}                # scratch space for server scripts
@@ -193,6 +193,7 @@ class FakeNet(object):
         self.log = []
         self.connect_errors = collections.deque()   # scripted: next connects fail with these (None = succeed)
         self.refuse = set()     # addresses that refuse connections
+        self.reader_limit = 2 ** 16   # asyncio's default line limit; scenarios may scale it down
 
     def add_host(self, hostname, ip):
         self.hosts[hostname] = ip
